@@ -55,7 +55,7 @@ def _call(ctx, label, fn, *args, **kw):
     try:
         r = fn(*args, **kw)
     except Exception as e:      # the explorer's control exceptions derive from BaseException and pass through
-        ctx.check_true(label, False, 'the real code raised %s: %s' % (type(e).__name__, e))
+        ctx.check_true('%s.raised.%s' % (label, type(e).__name__), False, 'the real code raised %s: %s' % (type(e).__name__, e))
     ctx.check_true(label, True)
     return r
 
@@ -188,19 +188,20 @@ def _combos(su_rng, sv_rng, sp_rng):
 
 
 def _topology_instances(tier):
+    """sp = the smallest spacing of the instance, sp_hi the largest"""
     out = []
     if tier == 'quick':
-        hi = 10
-        out.append(dict(su_lo=2, su_hi=hi, sv_lo=2, sv_hi=hi, sp_min=1, sp_max=2))
-        for sp in range(3, hi):
-            out.append(dict(su_lo=2, su_hi=hi, sv_lo=2, sv_hi=hi, sp_min=sp, sp_max=sp))
+        hi = 12
+        out.append(dict(su_lo=2, su_hi=hi, sv_lo=2, sv_hi=hi, sp=1, sp_hi=2))
+        for lo, up in ((3, 3), (4, 4), (5, hi - 1)):
+            out.append(dict(su_lo=2, su_hi=hi, sv_lo=2, sv_hi=hi, sp=lo, sp_hi=up))
     else:
         hi = 40
         for su in range(2, hi + 1):
-            out.append(dict(su_lo=su, su_hi=su, sv_lo=2, sv_hi=hi, sp_min=1, sp_max=2))
-        for sp in range(3, hi):
-            out.append(dict(su_lo=2, su_hi=hi, sv_lo=2, sv_hi=hi, sp_min=sp, sp_max=sp))
-    return [p for p in out if _combos((p['su_lo'], p['su_hi']), (p['sv_lo'], p['sv_hi']), (p['sp_min'], p['sp_max']))]
+            out.append(dict(su_lo=su, su_hi=su, sv_lo=2, sv_hi=hi, sp=1, sp_hi=2))
+        for lo, up in ((3, 3), (4, 4), (5, 6), (7, 10), (11, hi - 1)):
+            out.append(dict(su_lo=2, su_hi=hi, sv_lo=2, sv_hi=hi, sp=lo, sp_hi=up))
+    return [p for p in out if _combos((p['su_lo'], p['su_hi']), (p['sv_lo'], p['sv_hi']), (p['sp'], p['sp_hi']))]
 
 
 @scenario('C15', fns=['_tessellate.make_triangle_mesh', '_tessellate.make_triangle_mesh.fix_numbering',
@@ -208,14 +209,14 @@ def _topology_instances(tier):
                       'tessellate.TriangularTessellate.tessellate', 'tessellate.AbstractTessellate.vertices',
                       'tessellate.AbstractTessellate.faces', 'elements.Vertex', 'elements.Triangle'],
           quick=lambda: _topology_instances('quick'), thorough=lambda: _topology_instances('thorough'))
-def tri_topology(ctx, su_lo, su_hi, sv_lo, sv_hi, sp_min, sp_max):
-    """requires: size_u in [su_lo, su_hi], size_v in [sv_lo, sv_hi], vertex_spacing in [sp_min, sp_max] dividing both
+def tri_topology(ctx, su_lo, su_hi, sv_lo, sv_hi, sp, sp_hi):
+    """requires: size_u in [su_lo, su_hi], size_v in [sv_lo, sv_hi], vertex_spacing in [sp, sp_hi] dividing both
                  size-1 values - EVERY such triple is run (exhaustive over the stated range); concrete distinct points
        ensures : contract (a) of the module docstring for TriangularTessellate.tessellate (and, for grids of at most
                  64 points, for a direct call of make_triangle_mesh; spacing 1 also through the default argument)"""
     tsl = ctx.geomdl('tessellate')
     low = ctx.geomdl('_tessellate')
-    for su, sv, sp in _combos((su_lo, su_hi), (sv_lo, sv_hi), (sp_min, sp_max)):
+    for su, sv, sp in _combos((su_lo, su_hi), (sv_lo, sv_hi), (sp, sp_hi)):
         pts = _grid_points(ctx, su, sv)
         tag = 'tri[%dx%d,sp=%d]' % (su, sv, sp)
         t = tsl.TriangularTessellate()
@@ -233,7 +234,7 @@ def tri_topology(ctx, su_lo, su_hi, sv_lo, sv_hi, sp_min, sp_max):
 
 def _quad_instances(tier):
     if tier == 'quick':
-        return [dict(su_lo=2, su_hi=10, sv_lo=2, sv_hi=10)]
+        return [dict(su_lo=2, su_hi=12, sv_lo=2, sv_hi=12)]
     return [dict(su_lo=su, su_hi=min(su + 2, 40), sv_lo=2, sv_hi=40) for su in range(2, 41, 3)]
 
 
@@ -768,15 +769,21 @@ TRIMS = {
 }
 
 
-def _trim_object(ctx, name):
+# placements: translations of the base curve (every placement stays inside the open parameter rectangle)
+SHIFTS = [('0', '0'), ('1/13', '-1/17'), ('-2/19', '1/11'), ('1/10', '1/10'), ('-1/12', '-1/9'), ('3/41', '2/43'),
+          ('-1/10', '0'), ('0', '1/8')]
+
+
+def _trim_object(ctx, name, shift):
+    dx, dy = _F(shift[0]), _F(shift[1])
     if name == 'spline':
-        P = [[ctx.lit(_F(a)), ctx.lit(_F(b))] for a, b in TRIMS[name]]
+        P = [[ctx.lit(_F(a) + dx), ctx.lit(_F(b) + dy)] for a, b in TRIMS[name]]
         n = len(P)
         U = [ctx.lit(0)] * 3 + [ctx.lit(Fraction(k, n - 2)) for k in range(1, n - 2)] + [ctx.lit(1)] * 3
         crv = shapes.build_curve(ctx, 2, U, P)
         crv.sample_size = 25
         return crv
-    pts = [[ctx.lit(_F(a)), ctx.lit(_F(b))] for a, b in TRIMS[name]]
+    pts = [[ctx.lit(_F(a) + dx), ctx.lit(_F(b) + dy)] for a, b in TRIMS[name]]
     pts.append(list(pts[0]))
     ff = ctx.geomdl('freeform').Freeform()
     ff.evaluate(points=pts)
@@ -815,19 +822,23 @@ def _in_triangle(pt, tri):
 
 
 def _trim_instances(tier):
-    out = [dict(trim='square', n=[5, 5], sp=1, sense=0), dict(trim='square', n=[8, 6], sp=1, sense=0),
-           dict(trim='square', n=[11, 11], sp=1, sense=0),            # trim edges on grid lines
-           dict(trim='triangle', n=[6, 8], sp=1, sense=0), dict(trim='triangle_cw', n=[8, 8], sp=1, sense=0),
-           dict(trim='ell', n=[9, 9], sp=1, sense=0), dict(trim='ell', n=[13, 9], sp=2, sense=0),
-           dict(trim='sliver', n=[8, 8], sp=1, sense=0),
-           dict(trim='spline', n=[7, 7], sp=1, sense=0), dict(trim='spline', n=[10, 8], sp=1, sense=None),
-           dict(trim='square', n=[8, 8], sp=1, sense=1), dict(trim='spline', n=[9, 9], sp=1, sense=1)]
+    """places = number of placements (the first entries of SHIFTS) run by the instance"""
+    out = [dict(trim='square', n=[7, 7], sp=1, sense=0, places=4), dict(trim='square', n=[8, 6], sp=1, sense=0, places=4),
+           dict(trim='square', n=[11, 11], sp=1, sense=0, places=4),        # placement 0 / 3: trim edges on grid lines
+           dict(trim='triangle', n=[6, 8], sp=1, sense=0, places=4), dict(trim='triangle_cw', n=[8, 8], sp=1, sense=0, places=4),
+           dict(trim='ell', n=[9, 9], sp=1, sense=0, places=4), dict(trim='ell', n=[13, 9], sp=2, sense=0, places=4),
+           dict(trim='sliver', n=[8, 8], sp=1, sense=0, places=4),
+           dict(trim='spline', n=[7, 7], sp=1, sense=0, places=2), dict(trim='spline', n=[10, 8], sp=1, sense=None, places=2),
+           dict(trim='square', n=[14, 12], sp=1, sense=1, places=3), dict(trim='spline', n=[9, 9], sp=1, sense=1, places=2)]
     if tier == 'thorough':
         for name in ('square', 'triangle', 'triangle_cw', 'ell', 'sliver', 'spline'):
-            for n in ([6, 6], [12, 9], [16, 16]):
+            for n in ([12, 9], [16, 16], [21, 17]):
                 for sense in (0, 1):
-                    out.append(dict(trim=name, n=n, sp=1, sense=sense))
-        out += [dict(trim='ell', n=[21, 21], sp=2, sense=0), dict(trim='spline', n=[19, 13], sp=3, sense=0)]
+                    if sense == 1 and name == 'sliver':
+                        continue                # no point of the sliver is farther than a cell from its border
+                    out.append(dict(trim=name, n=n, sp=1, sense=sense, places=len(SHIFTS)))
+        out += [dict(trim='ell', n=[21, 21], sp=2, sense=0, places=len(SHIFTS)),
+                dict(trim='spline', n=[19, 13], sp=3, sense=0, places=len(SHIFTS))]
     return out
 
 
@@ -836,13 +847,14 @@ def _trim_instances(tier):
                       'linalg.triangle_center', 'ray.intersect', 'ray.Ray', 'abstract.Surface.tessellate',
                       'abstract.Surface.trims', 'abstract.Surface.add_trim', 'freeform.Freeform.evaluate'],
           quick=lambda: _trim_instances('quick'), thorough=lambda: _trim_instances('thorough'))
-def trim_region(ctx, trim, n, sp, sense):
+def trim_region(ctx, trim, n, sp, sense, places):
     """EXPLORATION-GRADE sub-claim: a handful of concrete trim placements and sample sizes, not a proof over trims.
 
        requires: a (2,1)-degree surface with symbolic x coordinates, sample sizes n, vertex_spacing sp, tessellator
                  TrimTessellate, ONE closed trim curve with concrete rational vertices: a polygonal freeform or a closed
-                 quadratic B-spline (25 samples); sense 0 / None (default) = the enclosed region is trimmed, 1 = the
-                 outside is trimmed.  P = the closed polygon trim.evalpts, T = the trimmed region decided by an
+                 quadratic B-spline (25 samples), translated by each of the first `places` entries of SHIFTS (a fresh
+                 surface per placement); sense 0 / None (default) = the enclosed region is trimmed, 1 = the outside is
+                 trimmed.  P = the closed polygon trim.evalpts, T = the trimmed region decided by an
                  independent even-odd point-in-polygon spec; cell = (sp/(n_u-1)) x (sp/(n_v-1)); a point is FAR if its
                  distance to P exceeds the diagonal of a cell
        ensures : vertex ids 0..V-1, faces reference vertices of the list, every vertex lies in the closed parameter
@@ -855,32 +867,39 @@ def trim_region(ctx, trim, n, sp, sense):
         if not isinstance(raymod.sys, _SysStandIn):
             import sys as real_sys
             raymod.sys = _SysStandIn(real_sys, ctx.lit(Fraction(1, 2 ** 52)))
+    for k in range(places):
+        _trim_placement(ctx, 'trim%d' % k, trim, SHIFTS[k], n, sp, sense)
+
+
+def _trim_placement(ctx, tag, trim, shift, n, sp, sense):
     d = _surface_data(ctx, S_21, 's')
     srf = _build(ctx, d)
     srf.sample_size_u, srf.sample_size_v = n
-    tr = _trim_object(ctx, trim)
+    tr = _trim_object(ctx, trim, shift)
     if sense is not None:
         tr.opt = ['reversed', sense]
     srf.trims = [tr]
     srf.tessellator = ctx.geomdl('tessellate').TrimTessellate()
     kw = {} if sp == 1 else {'vertex_spacing': sp}
-    _call(ctx, 'trim.tessellate', srf.tessellate, **kw)
+    _call(ctx, tag + '.tessellate', srf.tessellate, **kw)
     verts, faces = srf.vertices, srf.faces
     V = len(verts)
-    ctx.check_true('trim.vertex_ids_consecutive', [v.id for v in verts] == list(range(V)))
+    ctx.check_true(tag + '.vertex_ids_consecutive', [v.id for v in verts] == list(range(V)))
     bad = None
     for f in faces:
         for i, v in zip(f.data, f.vertices):
             if len(f.data) != 3 or not (0 <= i < V) or verts[i] is not v:
                 bad = 'face %d references vertex id %r which is not a vertex of the mesh' % (f.id, i)
-    ctx.check_true('trim.faces_reference_existing_vertices', bad is None, bad)
+    ctx.check_true(tag + '.faces_reference_existing_vertices', bad is None, bad)
     uv = [(_fr(ctx, v.uv[0]), _fr(ctx, v.uv[1])) for v in verts]
-    ctx.check_true('trim.vertices_in_parameter_rectangle', all(0 <= a <= 1 and 0 <= b <= 1 for a, b in uv))
+    slack = 0 if ctx.mode == 'sym' else Fraction(1, 10 ** 9)      # natively u += u_jump accumulates rounding (A1)
+    ctx.check_true(tag + '.vertices_in_parameter_rectangle',
+                   all(-slack <= a <= 1 + slack and -slack <= b <= 1 + slack for a, b in uv))
     for k, v in enumerate(verts):
-        ctx.check_eq_vec('trim.vertex%d=S(uv)' % k, v.data, _S(ctx, d, v.uv[0], v.uv[1]))
+        ctx.check_eq_vec(tag + '.vertex%d=S(uv)' % k, v.data, _S(ctx, d, v.uv[0], v.uv[1]))
 
     poly = [(_fr(ctx, p[0]), _fr(ctx, p[1])) for p in tr.evalpts]
-    ctx.check_true('setup.trim_is_closed', len(poly) >= 4 and poly[0] == poly[-1])
+    ctx.check_true(tag + '.setup.trim_is_closed', len(poly) >= 4 and poly[0] == poly[-1])
     du, dv = Fraction(sp, n[0] - 1), Fraction(sp, n[1] - 1)
     diag2 = du * du + dv * dv
     outside_trimmed = (sense == 1)
@@ -899,7 +918,7 @@ def trim_region(ctx, trim, n, sp, sense):
             bad = 'triangle %d %r with centroid (%s, %s) lies in the trimmed region, farther than a cell from the trim' % (
                 f.id, list(f.data), c[0], c[1])
             break
-    ctx.check_true('trim.no_triangle_deep_inside_the_trimmed_region', bad is None, bad)
+    ctx.check_true(tag + '.no_triangle_deep_inside_the_trimmed_region', bad is None, bad)
     boxes = [(min(p[0] for p in t), max(p[0] for p in t), min(p[1] for p in t), max(p[1] for p in t)) for t in tris]
     bad, nfar_kept, nfar_trimmed = None, 0, 0
     for a in range((n[0] - 1) // sp):
@@ -916,5 +935,5 @@ def trim_region(ctx, trim, n, sp, sense):
                 if cover != (0 if trimmed(x) else 1) and bad is None:
                     bad = 'point (%s, %s) of cell (%d, %d), %s the trimmed region and farther than a cell from the trim, is ' \
                           'covered by %d triangles' % (x[0], x[1], a, b, 'inside' if trimmed(x) else 'outside', cover)
-    ctx.check_true('trim.omitted_region_matches_within_one_cell', bad is None, bad)
-    ctx.check_true('trim.non_vacuous', nfar_kept > 0, 'no sample point far from the trim on the kept side')
+    ctx.check_true(tag + '.omitted_region_matches_within_one_cell', bad is None, bad)
+    ctx.check_true(tag + '.non_vacuous', nfar_kept > 0, 'no sample point far from the trim on the kept side')
